@@ -140,8 +140,11 @@ class PyVC(ExprMixin, CallMixin, StmtMixin, Engine):
             return info
         info["lines"] = (fn.end_lineno - fn.lineno + 1)
         try:
+            self.entry_state = None
+            self.entry_env = None
             st = self.initial_state(fid, fn, c)
             env0 = dict(st.env)
+            self.entry_env = env0
             for label, text in c.requires:
                 f, facts = self.spec_formula(text, st, env0)
                 for x in facts:
